@@ -5,7 +5,6 @@ import (
 
 	"src.elv.sh/pkg/cli/term"
 	"src.elv.sh/pkg/ui"
-	"src.elv.sh/pkg/wcwidth"
 )
 
 // TextView is a Widget for displaying text, with support for vertical
@@ -68,7 +67,7 @@ func (w *textView) Render(width, height int) *term.Buffer {
 		if i > first {
 			bb.Newline()
 		}
-		bb.Write(wcwidth.Trim(lines[i], textWidth))
+		bb.WriteStyled(showControlChars(ui.T(lines[i])).TrimWcwidth(textWidth))
 	}
 	buf := bb.Buffer()
 
